@@ -2,7 +2,7 @@
    Print Assumptions.  Model.v mirrors the prune planner (PrunePlan::new, count_used_blobs, check,
    PackInfo::from_pack, decide_packs, decide_repack, check_existing_packs, filter_index_files) and
    the effect of prune_repository on an abstract repository; the decision tables are regenerated
-   from prune.rs into Extracted.v on every run.  Blob identity is UNTYPED, as implemented. *)
+   from prune.rs into Extracted.v on every run.  Blob identity is the key the planner uses (b_key, regenerated from the source). *)
 From Verif.Base Require Import Tactics.
 From Verif.C02 Require Import ModelBase Extracted Model Spec Proofs Proofs2 Proofs3 Proofs4 Proofs5 Proofs6 Proofs7.
 Local Open Scope N_scope.
@@ -86,14 +86,19 @@ Theorem keep_is_always_safe :
 Proof. exact (conj decide_repack_keep_or_repack apply_repack_todo). Qed.
 Print Assumptions keep_is_always_safe.
 
-(* The property speaks of blobs as (type, id).  With TYPED identity the statement is FALSE for the
-   code as it is: a tree blob and a data blob with the same id in two packs, both referenced,
-   prune(instant_delete, max_unused 0%): the tree copy is accounted unused and its pack removed.
-   (Open known finding "lost blob id occurs under both blob types"; replayed on the real library by
-   the e2e collision history.) *)
-Theorem prune_typed_collision_refuted :
-  exists o fs used existing x,
-    In x used /\ listed_typed_b fs existing Tree x = true /\ listed_typed_b fs existing Data x = true
-    /\ typed_loss o fs used existing Tree x = true.
-Proof. exact typed_collision_refuted_lemma. Qed.
-Print Assumptions prune_typed_collision_refuted.
+(* The property speaks of blobs as (type, id); the key regenerated from the source (b_key) is
+   (type, id), so the main theorem reads: every referenced (type, id) is afterwards in an existing,
+   unmarked-listed pack under that type and id.  (Against the unrepaired planner, whose key is the
+   plain id, Extracted.v defines `used_key t i := i`, key_typed fails and this theorem is lost; the
+   collision history of the e2e stage then fails on the real code — finding fixed by the `fix:` commit.) *)
+Theorem prune_keeps_used_typed : forall dec packer nid o fs used existing pl out,
+  packer_ok packer (taken fs existing) ->
+  prune_with dec packer nid o fs used existing = inr (pl, out) ->
+  forall t i, In (used_key t i) used -> avail_after_typed (o_now o) fs existing out t i.
+Proof. exact prune_keeps_used_typed_lemma. Qed.
+Print Assumptions prune_keeps_used_typed.
+
+(* the planner's key separates blob types *)
+Theorem planner_key_is_typed : forall b t i, b_key b = used_key t i -> b_tpe b = t /\ b_id b = i.
+Proof. exact key_typed. Qed.
+Print Assumptions planner_key_is_typed.
